@@ -33,7 +33,11 @@ def attacker_stream(rng, c, know_creds=False):
                 # wrong credentials: mutate, swap, truncate, extend
                 u2, p2 = rng.choice([(user + b"x", pw), (user, pw + b"y"), (pw, user), (b"", b""), (user[:-1], pw),
                                      (user, pw[:-1]), (b"admin", b"admin")])
-                if (u2, p2) == (user, pw):
+                unconfigured = c.get("user") == "none" or c.get("pass") == "none"
+                if unconfigured and rng.random() < 0.5:
+                    # a server with a credential left unset admits NOBODY: in particular not the empty name / password
+                    u2, p2 = rng.choice([(b"", b""), (user, b""), (b"", pw), (user, pw)])
+                elif (u2, p2) == (user, pw) and not unconfigured:
                     u2 = user + b"!"
                 pieces.append(E.hello(u2[:255], p2[:255]))
         elif r < 0.4:
@@ -60,6 +64,10 @@ def gen_cases(rng, tier):
     for i in range(n):
         mech = rng.choice(["PLAIN", "PLAIN", "PLAIN", "CURVE", "NOISE"])
         c = E.gen_cfg(rng, mech="PLAIN" if mech == "PLAIN" else "NULL")
+        if mech == "PLAIN" and rng.random() < 0.12:
+            c["user"] = "none"
+            if rng.random() < 0.6:
+                c["pass"] = "none"
         if mech == "CURVE":
             c.update({"curve": 1, "sec": 1})
         elif mech == "NOISE":
@@ -113,6 +121,16 @@ def gen_stack_cases(rng, tier):
         stream = b"".join(pieces) + E.frame(b"after-auth-attempt")
         cuts = E.few_cuts(rng, len(stream)) if rng.random() < 0.5 else "-"
         cases.append(["rawpeer %s %s %s" % (E.cfg_str(c), E.hexspec(stream), cuts)])
+    # a PLAIN server whose credentials were never set admits nobody - not even the empty name and password
+    for creds in (("", ""), ("h75736572", ""), ("", "h70617373")):
+        c = {"role": "s", "type": "PULL", "plain": 1, "sec": 1}
+        if creds[0]:
+            c["user"] = creds[0]
+        if creds[1]:
+            c["pass"] = creds[1]
+        for u2, p2 in ((b"", b""), (b"user", b""), (b"", b"pass")):
+            stream = E.greeting_v3("PLAIN") + E.hello(u2, p2) + E.ready("PUSH") + E.frame(b"after-auth-attempt")
+            cases.append(["rawpeer %s %s -" % (E.cfg_str(c), E.hexspec(stream))])
     # positive control: the right credentials do get through (keeps the scenario honest)
     c = {"role": "s", "type": "PULL", "plain": 1, "sec": 1, "user": "h75736572", "pass": "h70617373"}
     hs = b"".join(b for _, b in E.peer_handshake(rng, c)) + E.frame(b"ok")
